@@ -74,6 +74,20 @@ FRESH = {"id", "begin_block/-", "begin_block_no_label/-", "begin_function/1/-/0/
          "variable/1/-/7/-", "function_parameter/1", "undef/1/-"}
 
 
+def mm_oracle(req, resp):
+    if resp.startswith("panic"):
+        return "panicked: " + resp[6:80]
+    if not resp.startswith("ok "):
+        return None
+    outs = resp.split(" | ")[0].split(" ")[1:]
+    bound = int(resp.split(" | ")[2].split(" ")[0].split(",")[3])
+    if not (outs and outs[-1].startswith("ok:") and outs[-1][3:].isdigit()):
+        return None
+    if bound != int(outs[-1][3:]) + 1:
+        return f"the last request `id` returned {outs[-1][3:]}, the finished module's bound is {bound}"
+    return None
+
+
 def run(ctx):
     with C.Lock():
         T, fails = C.translate_all(ctx)
@@ -211,18 +225,6 @@ def run(ctx):
         body.insert(k, "module_mut_bound/%d" % rnd.choice([0, 1, 5, 77, 1000, 4000000100]))
         mm.append("build " + " ".join(pre + body + ["id"]))
 
-    def mm_oracle(req, resp):
-        if resp.startswith("panic"):
-            return "panicked: " + resp[6:80]
-        if not resp.startswith("ok "):
-            return None
-        outs = resp.split(" | ")[0].split(" ")[1:]
-        bound = int(resp.split(" | ")[2].split(" ")[0].split(",")[3])
-        if not (outs and outs[-1].startswith("ok:") and outs[-1][3:].isdigit()):
-            return None
-        if bound != int(outs[-1][3:]) + 1:
-            return f"the last request `id` returned {outs[-1][3:]}, the finished module's bound is {bound}"
-        return None
     found_mm = C.oracle_search(ctx, mm, mm_oracle, "build-module-mut")
     ctx.oblige(f"oracle:build-module-mut ({len(mm)} histories, implementation only)", not found_mm)
     if broken:
@@ -253,6 +255,11 @@ def replay(ctx, path):
     with C.Lock():
         C.translate_all(ctx)
         C.build_harness(ctx, bins=("impl",))
-    a, b = C.run_impl(ctx, [req])[0], C.run_driver(ctx, [req])[0]
+    hist = (r.get("witness") or {}).get("history") or []     # requests answered before it by the same process
+    a, b = C.run_impl(ctx, hist + [req])[-1], C.run_driver(ctx, hist + [req])[-1]
     print("request:", req[:300]); print("implementation:", a[:300]); print("model:", b[:300])
+    if "module_mut_bound/" in req:       # no model counterpart: the oracle decides
+        msg = mm_oracle(req, a)
+        print("oracle:", msg)
+        return 1 if msg else 0
     return 1 if C.canon(a) != C.canon(b) else 0
